@@ -118,6 +118,7 @@ type world struct {
 	reps                  []*replica
 	results               map[uint64]*applied
 	iters                 map[int]*iterSlot
+	harvestBytes          int64 // file bytes referred to by the crash images harvested in this run
 	step                  int
 	nextIndex             uint64
 	cache                 *pebble.Cache
@@ -213,9 +214,20 @@ func (w *world) instrument(r *replica, fs *crashfs.FS) {
 		// The durable view was constant since the previous sync: finalise the
 		// pending image with the tightest lower bound of its window.
 		w.finalise(r)
-		r.pending = &pendingImage{img: f.CaptureLocked(), upper: r.startedIdx.Load(), step: r.curStep, mid: true, during: r.during}
+		if w.harvestBytes > harvestCap {
+			// a table of many megabytes synced in many steps: every image keeps its own version of the growing
+			// files alive; what was harvested so far is evaluated, the rest of this run is not harvested
+			w.out.Probe("harvest-capped-by-size")
+			return
+		}
+		img := f.CaptureLocked()
+		w.harvestBytes += img.Size()
+		r.pending = &pendingImage{img: img, upper: r.startedIdx.Load(), step: r.curStep, mid: true, during: r.during}
 	}
 }
+
+// harvestCap bounds the file bytes all crash images of one run may refer to (an upper bound of their memory).
+const harvestCap = 256 << 20
 
 func (w *world) finalise(r *replica) {
 	if r.pending == nil {
@@ -923,7 +935,15 @@ func (w *world) iterDrop(slot int) {
 func (w *world) iterPanic(s *iterSlot) {
 	r := w.reps[s.rep]
 	if r.epoch != s.epochOpen {
-		w.fail("C08", "read-overlap-panic", "lazy-iterator-after-install:panic:"+shortPanic(s.panicVal), "streamed range read opened before a snapshot install/reopen and consumed after it panicked: %v\n%s", s.panicVal, s.panicStk)
+		// one class, whatever Pebble happens to say when it is used after Close (the message depends on how far the
+		// iterator had got: "pebble: closed" from NewIter, other panics from an iterator that was already open):
+		// the panic is raised inside Pebble, on the database the install closed. A panic raised in regatta's own
+		// frames keeps its own signature.
+		what := shortPanic(s.panicVal)
+		if strings.Contains(s.panicStk, "github.com/cockroachdb/pebble.") || strings.Contains(s.panicStk, "github.com/cockroachdb/pebble/") {
+			what = "pebble: closed"
+		}
+		w.fail("C08", "read-overlap-panic", "lazy-iterator-after-install:panic:"+what, "streamed range read opened before a snapshot install/reopen and consumed after it panicked: %v\n%s", s.panicVal, s.panicStk)
 	} else {
 		w.fail("C09", "iter-panic", "iter-panic:"+repoFrame(s.panicStk), "streamed range read panicked: %v\n%s", s.panicVal, s.panicStk)
 	}
